@@ -262,7 +262,13 @@ func (d dissecting) Analyze(item *api.OutputChannelItem, resolvedSource *api.Res
 			resolvedDestination.Name = host
 		}
 	} else {
-		u, err := url.Parse(reqDetails["url"].(string))
+		// An origin-form target (it starts with a slash) is a path and a query: parsed as a
+		// general URL, "//static/app.js" would read as the authority "static" and the path "/app.js".
+		parse := url.Parse
+		if strings.HasPrefix(reqDetails["url"].(string), "/") {
+			parse = url.ParseRequestURI
+		}
+		u, err := parse(reqDetails["url"].(string))
 		if err != nil {
 			path = reqDetails["url"].(string)
 		} else {
